@@ -8,7 +8,8 @@ import subprocess
 import sys
 import tempfile
 
-REPO = "/repo"
+REPO = os.environ.get("VERIF_REPO", "/repo")
+VERIF = os.path.dirname(os.path.dirname(os.path.abspath(__file__)))
 SRC = "src/libertem_blobfinder/"
 M = [
     # (name, file, old, new, [properties])
@@ -78,11 +79,11 @@ def main():
             print(name, "PATTERN", src.count(old), flush=True)
             continue
         bk = tempfile.mkdtemp()
-        shutil.copytree("/verif/evidence", os.path.join(bk, "evidence"))
+        shutil.copytree(os.path.join(VERIF, "evidence"), os.path.join(bk, "evidence"))
         try:
             open(path, "w").write(src.replace(old, new))
             for p in props:
-                pr = subprocess.run(["/verif/check", p, "--tier", "quick"], capture_output=True, text=True, timeout=1800)
+                pr = subprocess.run([os.path.join(VERIF, "check"), p, "--tier", "quick"], capture_output=True, text=True, timeout=1800)
                 viol = [ln for ln in pr.stdout.splitlines() if ln.startswith("VIOLATION")]
                 kind = "missed"
                 if viol:
@@ -91,11 +92,11 @@ def main():
                 print(f"{name:24s} {p} rc={pr.returncode} {kind}", flush=True)
         finally:
             open(path, "w").write(src)
-            shutil.rmtree("/verif/evidence")
-            shutil.copytree(os.path.join(bk, "evidence"), "/verif/evidence")
+            shutil.rmtree(os.path.join(VERIF, "evidence"))
+            shutil.copytree(os.path.join(bk, "evidence"), os.path.join(VERIF, "evidence"))
             shutil.rmtree(bk)
-    subprocess.run(["/venv/bin/python", "/verif/harness/translate.py"], capture_output=True)
-    with open("/verif/seeded/DRILL.json", "w") as fh:
+    subprocess.run(["/venv/bin/python", os.path.join(VERIF, "harness", "translate.py")], capture_output=True)
+    with open(os.path.join(VERIF, "seeded", "DRILL.json"), "w") as fh:
         json.dump(results, fh, indent=1)
 
 
